@@ -180,7 +180,30 @@ pub fn drop_container<S: Strat>(c: Arc<Cont<S>>) {
 }
 
 /// Read a value through a handle and check it is what the call record said.
+///
+/// Handles handed back by write operations (swap / compare_and_swap / rcu / into_inner results and
+/// handles kept until the container is gone) are the subject of C04: whatever goes wrong while
+/// using one of them also counts for C04.
 pub fn use_value(v: &V, expect_label: u64, how: &str) {
+    let returned = how.contains("result") || how.contains("kept handle") || how.contains("after the container is gone");
+    if returned {
+        let old = rt::context_tag();
+        let mut t = old.clone();
+        if !t.split(',').any(|x| x == "C04") {
+            if !t.is_empty() {
+                t.push(',');
+            }
+            t.push_str("C04");
+        }
+        rt::set_context_tag(&t);
+        use_value_inner(v, expect_label, how);
+        rt::set_context_tag(&old);
+    } else {
+        use_value_inner(v, expect_label, how);
+    }
+}
+
+fn use_value_inner(v: &V, expect_label: u64, how: &str) {
     let got = v.get();
     if got != expect_label && !rt::draining() {
         rt::violation(
